@@ -4,6 +4,7 @@ import Mathlib.Tactic.FieldSimp
 import Mathlib.Tactic.Positivity
 import Mathlib.Tactic.Linarith
 import Mathlib.Analysis.SpecialFunctions.Pow.Real
+import Mathlib.Analysis.SpecialFunctions.Trigonometric.Basic
 /-!
 # Vermeille's closed-form geocentric → geodetic conversion: the algebra
 (used by `Props/C07.lean`)
@@ -89,5 +90,15 @@ theorem vermeille_closure (a e2 R Z k : ℝ) (ha : 0 < a) (hk : 0 < k) (hk2 : 0 
   constructor
   · rw [hn, hh]; show (H + (k - (1 - e2)) * H) * ((R / (k + e2)) / H) = R; field_simp; ring
   · rw [hn, hh]; show ((1 - e2) * H + (k - (1 - e2)) * H) * ((Z / k) / H) = Z; field_simp; ring
+
+/-- trigonometric form of the resolvent's root (three real roots, `r < 0`): with `cos θ = (S + r³)/r³`,
+`u = r (1 + 2 cos(θ/3))` solves `u³ − 3r u² = 2S` (`cos 3x = 4cos³x − 3cos x`) -/
+theorem vermeille_cubic_trig (r S θ : ℝ) (hcos : Real.cos θ * r ^ 3 = S + r ^ 3) :
+    (r + 2 * r * Real.cos (θ / 3)) ^ 3 - 3 * r * (r + 2 * r * Real.cos (θ / 3)) ^ 2 = 2 * S := by
+  have h3 : Real.cos θ = 4 * Real.cos (θ / 3) ^ 3 - 3 * Real.cos (θ / 3) := by
+    have := Real.cos_three_mul (θ / 3)
+    rwa [show 3 * (θ / 3) = θ by ring] at this
+  rw [h3] at hcos
+  linear_combination 2 * hcos
 
 end GeoVerif.Vermeille
